@@ -32,7 +32,9 @@ structure Entry where
   body : Option Nat
   /-- ENTRY_REVALIDATE_ALWAYS -/
   revalAlways : Bool
-  /-- has a validator (`lastModified() >= 0 || hasEtag()`) -/
+  /-- the stored reply carried Last-Modified. Not used by any decision: `StoreEntry::lastModified()` falls back to
+  `timestamp`, which `timestampsSet()` gives every stored reply, so the "Can't calculate entry modification time. Do MISS"
+  exit of `cacheHit` is unreachable here and a stale entry is always revalidated with If-Modified-Since -/
   hasValidator : Bool
   deriving DecidableEq, Repr
 
@@ -53,6 +55,8 @@ structure Req where
 structure Resp where
   varyLines : List Bytes
   hasValidator : Bool
+  /-- the origin answers 304 (without Vary) when the request reaching it is conditional -/
+  notModified : Bool := false
   deriving Repr
 
 inductive VaryResult where
@@ -140,6 +144,9 @@ inductive Obs where
   | hit (i : Nat)
   /-- the origin was contacted and its answer delivered -/
   | origin
+  /-- the origin was contacted with a conditional request, answered 304, and the stored response to request number i
+  was delivered (`handleIMSReply`: `updateOnNotModified`, `sendClientOldEntry`) -/
+  | revalidated (i : Nat)
   /-- impossible outcome kept explicit: an internal marker object selected for delivery -/
   | markerServed
   deriving DecidableEq, Repr
@@ -149,9 +156,15 @@ def step (st : Store) (r : Req) (resp : Resp) (idx : Nat) : Store × Obs :=
   match lookup st r with
   | (.miss, rv) => (storeReply st r rv resp idx, .origin)
   | (.found e, rv) =>
-    -- refreshCheckHTTP: ENTRY_REVALIDATE_ALWAYS ⇒ stale; without a validator processMiss(), with one processExpired()
-    -- (an If-Modified-Since request answered 200 here): the origin is contacted either way and its reply is stored
-    if e.revalAlways then (storeReply st r rv resp idx, .origin)
+    -- refreshCheckHTTP: ENTRY_REVALIDATE_ALWAYS ⇒ stale ⇒ processExpired(): an If-Modified-Since request (with
+    -- Last-Modified or, lacking it, the entry's timestamp) goes to the origin. A 200 answer is stored like a miss;
+    -- a 304 answer (`doNotCacheButShare` ⇒ private, no Vary) leaves the index alone and the old entry is delivered.
+    if e.revalAlways then
+      if resp.notModified then
+        match e.body with
+        | some i => (st, .revalidated i)
+        | none => (st, .markerServed)
+      else (storeReply st r rv resp idx, .origin)
     else match e.body with
       | some i => (st, .hit i)
       | none => (st, .markerServed)
